@@ -34,6 +34,8 @@ func init() {
 				Edits: []Edit{{File: "channel/sendinput.go", Old: "b:   c.processOut(b, op.StripPrompt),", New: "b:   c.processOut(b, true),"}}},
 			{ID: "C01-echo-returned", Desc: "bytes consumed by the echo read are returned with the output", Rule: "C01/tx-seq",
 				Edits: []Edit{{File: "channel/sendinput.go", Old: "\t\t_, err = readUntilF(ctx, input)\n", New: "\t\tb, err = readUntilF(ctx, input)\n"}}},
+			{ID: "C01-ansi-csi-first", Desc: "the CSI alternative of the ANSI pattern is tried before the BEL-terminated one", Rule: "C01/ansi-no-shadow",
+				Edits: []Edit{{File: "util/bytes.go", Old: "(?:(?:(?:[a-zA-Z\\\\d]*(?:;[a-zA-Z\\\\d]*)*)?\" +\n\t\"\\u0007)|(?:(?:\\\\d{1,4}(?:;\\\\d{0,4})*)?[\\\\dA-PRZcf-ntqry=><~]))", New: "(?:(?:(?:\\\\d{1,4}(?:;\\\\d{0,4})*)?[\\\\dA-PRZcf-ntqry=><~])|\" +\n\t\"(?:(?:[a-zA-Z\\\\d]*(?:;[a-zA-Z\\\\d]*)*)?\\u0007))"}}},
 			{ID: "C01-ansi-skips-enqueue", Desc: "chunks containing an escape are stripped but not enqueued", Rule: "C01/enqueue-once",
 				Edits: []Edit{{File: "channel/read.go", Old: "\t\tif bytes.Contains(b, []byte(\"\\x1b\")) {\n\t\t\tb = util.StripANSI(b)\n\t\t}\n", New: "\t\tif bytes.Contains(b, []byte(\"\\x1b\")) {\n\t\t\tb = util.StripANSI(b)\n\n\t\t\tif len(b) == 0 {\n\t\t\t\tcontinue\n\t\t\t}\n\t\t}\n"}}},
 			{ID: "C01-cr-kept", Desc: "carriage returns no longer removed", Rule: "C01/enqueue-once",
@@ -74,6 +76,8 @@ func runC01(c *Ctx, r *Report) {
 	r.Rule("C01/ansi-bounded", "no unbounded repetition of the escape-sequence pattern admits ESC or newline", 1)
 	checkExplicitMatcherArgs(c, r, "C01/explicit-matcher")
 	checkANSIPatternBounded(c, r, "C01/ansi-bounded")
+	r.Rule("C01/ansi-no-shadow", "no alternative of the escape-sequence pattern is tried before another one of which it matches a proper prefix (leftmost-first matching would leave the tail of a complete sequence in the output)", 1)
+	checkANSINoShadow(c, r, "C01/ansi-no-shadow")
 	r.Rule("C01/tx-seq", "send-input worker: exactly [write(input), echo read(ctx,input), write return, final prompt read per mode] on every success path; result = processOut(final read, StripPrompt); one SendInput per command", 6)
 	r.Rule("C01/enqueue-once", "read loop: one Enqueue per successful non-empty read, of that read's bytes with CR removed and ANSI stripped; read-until loops append every chunk and return the accumulation", 6)
 	r.Rule("C01/post-process", "processOut: per-line right-trim of spaces, prompt removal exactly when asked, trim of return char and newlines", 3)
